@@ -132,7 +132,8 @@ def run(ck: Checker):
             if any(isinstance(x, ast.Constant) and x.value is None for x in ast.walk(tv)) or not isinstance(tv, ast.Constant):
                 probs8.append(f'the timeout `{norm_text(tv)}` can be None (or is not a positive number): the supplier then waits for the next round without bound and without ever looking at the stop event — after a stop request it blocks on for ever instead of raising StopRequested')
         if n.loops:
-            stops8 = {k.id for k in cfg8.nodes if k.kind == 'test' and 'is_set' in norm_text(k.ast)}
+            # the stop test, possibly split: `if self._to_stop is not None:` / `if self._to_stop.is_set():`
+            stops8 = {k.id for k in cfg8.nodes if k.kind == 'test' and ('is_set' in norm_text(k.ast) or '_to_stop' in norm_text(k.ast))}
             for e in cfg8.succ[n.id]:
                 if e.kind == 'exc' and path_avoiding(cfg8, [e], {n.id}, avoid=stops8) is not None:
                     probs8.append('after an expired wait the get is retried without testing the stop event')
